@@ -173,7 +173,11 @@ PROPS = {
                 "(right key, wrong key, repeated, unknown id), IsSporkActive of every spork on the store of every height, the "
                 "unimplemented-spork report on every height, availability of a (contract, method) for a block acknowledging a "
                 "momentum within ±2 of an enforcement height (live and against historical momentums); two thirds of the scenarios "
-                "activate in the order accelerator/bridge/htlc, the rest in random order, a quarter add an unknown spork; "
+                "activate in the order accelerator/bridge/htlc, the rest in random order, a quarter add an unknown spork; a third "
+                "make an account whose key the harness holds the community spork address with a window of 5..26 momentums (the real "
+                "code's package variables; the driver evaluates the window-parametrised model, spork_authority_window): Create and "
+                "Activate calls by that key before, inside and after the window, two thirds of them acknowledging an older momentum "
+                "(one inside the window when the frontier is past it), activation of the scenario's sporks by that key when well inside; "
                 "distinct = distinct lines",
         "partial": "gating is exact only when sporks are enforced in the order accelerator, bridge&liquidity, htlc (known "
                    "finding F17); the case 'activating receive confirmed later than the enforcement height' is excluded by "
